@@ -39,7 +39,7 @@ theorem objPalettes_eq (r : Ppu.Regs) : (Cfg.ofRegs r).objectPalettes =
     ((((((((Array.replicate 32 0).set! 0 (shade (r.obp0 &&& 3))).set! 1 (shade ((r.obp0 >>> 2) &&& 3))).set! 2
       (shade ((r.obp0 >>> 4) &&& 3))).set! 3 (shade ((r.obp0 >>> 6) &&& 3))).set! 4 (shade (r.obp1 &&& 3))).set! 5
       (shade ((r.obp1 >>> 2) &&& 3))).set! 6 (shade ((r.obp1 >>> 4) &&& 3))).set! 7 (shade ((r.obp1 >>> 6) &&& 3)) := by
-  simp only [Cfg.ofRegs, Cfg.setObjPalette, Cfg.setBgp, Cfg.setLcdControl, Cfg.new,
+  simp only [Cfg.ofRegs, Cfg.applyRegs, Cfg.setObjPalette, Cfg.setBgp, Cfg.setLcdControl, Cfg.new,
     show (0 &&& 7) * 4 = 0 from rfl, show (1 &&& 7) * 4 = 4 from rfl, Nat.zero_add, Nat.add_zero]
 
 theorem objPalettes_size (r : Ppu.Regs) : (Cfg.ofRegs r).objectPalettes.size = 32 := by
